@@ -58,8 +58,9 @@ class Ledger:
         bal = {}
         accts, denoms, toks = world.t_accounts, world.t_denoms, world.t_tokens
         try:
+            keys = [world.denom_key(d) for d in denoms]
             for a, row in zip(accts, snap["bank"]):
-                for d, v in zip(denoms, row):
+                for d, v in zip(keys, row):
                     bal[(a, d)] = int(v)
             for t, row in zip(toks, snap["cw20"]):
                 for a, v in zip(accts, row):
@@ -278,6 +279,11 @@ class World:
                        "tokens": self.t_tokens, "contracts": self.t_contracts,
                        "allowances": [list(x) for x in self.by_allow]})
         self.ledger = Ledger(self, self.srv.send({"op": "snap"})["v"])
+
+    def denom_key(self, d):
+        """ledger key of a bank denom; denoms spelled like contract addresses get a prefix so that they cannot be
+        confused with the cw20 token of the same name in the ledger"""
+        return "bank:" + d if d in self.addr_denoms else d
 
     # -- raw execution ---------------------------------------------------------
     def x(self, sender, contract, msg, funds=None, snap=False):
